@@ -4,6 +4,15 @@ package lib
 
 // Correspondence + property oracle for C08 (and the sequential part of C02/C09): operation
 // histories against the real RegisteredDecoys, same histories as lines for the Lean registry model.
+//
+// A history is a sequence of: registrations / duplicates (Track, register — handed a new object, a new
+// object whose Valid flag is already set, or the very object that was delivered for the registration
+// before), connections (markActive, and lib.Proxy: a tunnel that finishes at once or stays open
+// across later operations), bursts of registrations (population sizes from 1 to several thousand),
+// let-time-pass, look-ups, and sweeps — the whole removeOldRegistrations, or its two critical sections
+// with other operations in between (white-box: getExpiredRegistrations + removeRegistration per
+// index; and the real removeOldRegistrations interrupted at its scheduling point before the first
+// removal).
 
 import (
 	"fmt"
@@ -11,11 +20,16 @@ import (
 	golog "log"
 	"net"
 	"os"
+	"runtime"
 	"sort"
+	"strconv"
 	"strings"
+	"sync"
+	"sync/atomic"
 	"testing"
 	"time"
 
+	"github.com/refraction-networking/conjure/internal/verifhook"
 	"github.com/refraction-networking/conjure/internal/vlib"
 	"github.com/refraction-networking/conjure/pkg/core"
 	"github.com/refraction-networking/conjure/pkg/station/log"
@@ -25,27 +39,45 @@ import (
 	pb "github.com/refraction-networking/conjure/proto"
 )
 
+type c08Key struct{ ph, sec, tr int }
+
 type c08GT struct { // harness ground truth per (phantom, secret, transport)
 	time  int64
 	used  bool
 	valid bool
 }
 
+type c08Tunnel struct {
+	key    c08Key
+	client net.Conn
+	done   chan struct{}
+}
+
 type c08World struct {
 	rd      *RegisteredDecoys
 	ann     []string
 	lastNow int64 // virtual clock (seconds); records are aged by shifting their real timestamps
-	gt      map[string]*c08GT
+	gt      map[c08Key]*c08GT
 	logger  *log.Logger
 	t0      time.Time // real time at which the history started (see c08SlowLimit)
+	// quantum: every operation time of the history is a multiple of it (1 s; 60 s for histories over big
+	// populations, which may take longer than a second of real time)
+	quantum int64
+	objs    map[c08Key]*DecoyRegistration // the object that was delivered last for a registration
+	idb     map[c08Key]string             // transport identifier (raw) of a registration
+	alias   map[string]string             // hex identifier -> the short name the model line uses (burst members)
+	tunnels []*c08Tunnel
+	// the instant a sweep would decide on a record that is exactly at a lifetime (left open by the
+	// property): the history is discarded
+	boundaryInstant bool
 }
 
 // The code reads the real clock: the age it sees is the virtual age plus the real time that has
 // passed since the record was created, i.e. at most the real duration of the whole history. A history
 // that took longer than this limit (a stalled machine) is discarded as a whole — no case, no oracle
 // verdict — so that no verdict ever depends on timing: below the limit every age the code computes is
-// in [virtual age, virtual age + 0.9 s), ages are probed no closer than 1 s to a lifetime, and the
-// creation time of a record is recovered exactly by rounding its age down to whole seconds.
+// in [virtual age, virtual age + 0.9 quantum), ages are probed no closer than one quantum to a lifetime,
+// and the creation time of a record is recovered exactly by rounding its age down to whole quanta.
 const c08SlowLimit = 900 * time.Millisecond
 
 var c08Phantoms = []string{"10.0.0.1", "10.0.0.2", "2001:db8::1"}
@@ -59,8 +91,68 @@ func c08Secret(i int) []byte {
 	return s
 }
 
+// members of bursts have secrets of their own: sec = c08BulkBase + index
+const c08BulkBase = 1 << 20
+
+func c08SecretOf(sec int) []byte {
+	if sec < c08BulkBase {
+		return c08Secret(sec)
+	}
+	i := sec - c08BulkBase
+	s := make([]byte, 32)
+	for j := range s {
+		s[j] = byte(0xB0 ^ j)
+	}
+	s[0], s[1], s[2], s[3] = byte(i), byte(i>>8), byte(i>>16), 0xB7
+	return s
+}
+
+// ---- covert destinations for tunnels: one that accepts and holds the connection until the tunnel
+// is closed, one that refuses (the tunnel is counted and finishes at once)
+
+var c08Covert struct {
+	once     sync.Once
+	open     string
+	refused  string
+	accepted int64
+	opened   int // tunnels that used a real socket pair so far (bounded: ephemeral ports)
+	start    time.Time
+}
+
+func c08CovertSetup() {
+	c08Covert.once.Do(func() {
+		c08Covert.start = time.Now()
+		l, err := net.Listen("tcp", "127.0.0.1:0")
+		if err != nil {
+			panic(err)
+		}
+		c08Covert.open = l.Addr().String()
+		go func() {
+			for {
+				c, err := l.Accept()
+				if err != nil {
+					return
+				}
+				atomic.AddInt64(&c08Covert.accepted, 1)
+				go func() {
+					_, _ = io.Copy(io.Discard, c)
+					c.Close()
+				}()
+			}
+		}()
+		l2, err := net.Listen("tcp", "127.0.0.1:0")
+		if err != nil {
+			panic(err)
+		}
+		c08Covert.refused = l2.Addr().String()
+		l2.Close()
+	})
+}
+
 func newC08World() *c08World {
-	w := &c08World{rd: NewRegisteredDecoys(), gt: map[string]*c08GT{}, t0: time.Now()}
+	c08CovertSetup()
+	w := &c08World{rd: NewRegisteredDecoys(), gt: map[c08Key]*c08GT{}, t0: time.Now(), quantum: 1,
+		objs: map[c08Key]*DecoyRegistration{}, idb: map[c08Key]string{}, alias: map[string]string{}}
 	w.rd.transports[pb.TransportType_Min] = min.Transport{}
 	w.rd.transports[pb.TransportType_Prefix] = prefix.Transport{}
 	w.rd.transports[pb.TransportType_DTLS] = dtls.Transport{}
@@ -72,28 +164,76 @@ func newC08World() *c08World {
 }
 
 func (w *c08World) mkReg(ph, sec, tr int) *DecoyRegistration {
-	src := pb.RegistrationSource_API
-	// flags a client / another station may set must not influence tracking, visibility or expiry
+	// who registered it, which decoy list generation and client library it came with, and the flags a
+	// client / another station may set must not influence tracking, visibility or expiry
+	src := []pb.RegistrationSource{pb.RegistrationSource_API, pb.RegistrationSource_Detector, pb.RegistrationSource_BidirectionalAPI,
+		pb.RegistrationSource_DetectorPrescan, pb.RegistrationSource_DNS}[sec%5]
 	pre := sec%2 == 1
-	return &DecoyRegistration{
+	d := &DecoyRegistration{
 		PhantomIp:          net.ParseIP(c08Phantoms[ph]),
-		Keys:               &core.ConjureSharedKeys{SharedSecret: c08Secret(sec)},
+		PhantomPort:        uint16(443 + sec%3),
+		DecoyListVersion:   uint32(sec % 4),
+		clientLibVer:       uint32(sec % 7),
+		Keys:               &core.ConjureSharedKeys{SharedSecret: c08SecretOf(sec)},
 		Transport:          c08Transports[tr],
 		RegistrationSource: &src,
 		Flags:              &pb.RegistrationFlags{Prescanned: &pre},
+		Covert:             c08Covert.open,
 	}
+	if t, ok := w.rd.transports[d.Transport]; ok {
+		d.TransportPtr = &t
+	}
+	return d
+}
+
+// identRaw is the transport identifier of a registration ("" for the disabled transport).
+func (w *c08World) identRaw(k c08Key) string {
+	if id, ok := w.idb[k]; ok {
+		return id
+	}
+	d := w.mkReg(k.ph, k.sec, k.tr)
+	id := ""
+	if t, ok := w.rd.transports[d.Transport]; ok {
+		id = t.GetIdentifier(d)
+	}
+	w.idb[k] = id
+	return id
+}
+
+// identK is the identifier as the model line spells it: hex, or the short name of a burst member
+// (the model treats identifiers as opaque; the harness checks that the renaming is injective).
+func (w *c08World) identK(k c08Key) string {
+	if k.tr == 3 {
+		// any fixed text: the model never stores a registration of a disabled transport
+		return "00"
+	}
+	h := vlib.Hex([]byte(w.identRaw(k)))
+	if k.sec >= c08BulkBase {
+		a := fmt.Sprintf("b%d_%d", int(c08Transports[k.tr]), k.sec-c08BulkBase)
+		if old, ok := w.alias[h]; ok && old != a {
+			panic("two burst members share a transport identifier: " + old + " " + a)
+		}
+		w.alias[h] = a
+		return a
+	}
+	return h
 }
 
 func (w *c08World) ident(d *DecoyRegistration) string {
 	t, ok := w.rd.transports[d.Transport]
 	if !ok {
-		// any fixed text: the model never stores a registration of a disabled transport
 		return "00"
 	}
-	return vlib.Hex([]byte(t.GetIdentifier(d)))
+	return w.spell(t.GetIdentifier(d))
 }
 
-func gtKey(ph, sec, tr int) string { return fmt.Sprintf("%d/%d/%d", ph, sec, tr) }
+func (w *c08World) spell(rawID string) string {
+	h := vlib.Hex([]byte(rawID))
+	if a, ok := w.alias[h]; ok {
+		return a
+	}
+	return h
+}
 
 // advance moves the virtual clock to `now`: every timeout record is aged by the elapsed virtual time.
 // Only relative shifts are applied, so whatever the code itself writes into registrationTime
@@ -110,18 +250,19 @@ func (w *c08World) advance(now int64) {
 // vcreated is the virtual time at which the record's clock started, as the code sees it now.
 func (w *c08World) vcreated(to *DecoyTimeout) int64 {
 	age := time.Since(to.registrationTime)
-	return w.lastNow - int64(age/time.Second)
+	q := time.Duration(w.quantum) * time.Second
+	return w.lastNow - int64(age/q)*w.quantum
 }
 
 func (w *c08World) dump() string {
 	var d, t []string
 	for ph, m := range w.rd.decoys {
 		for id, r := range m {
-			d = append(d, fmt.Sprintf("%s,%s,%d,%s,%d", ph, vlib.Hex([]byte(id)), int(r.Transport), vlib.B(r.Valid), r.regCount))
+			d = append(d, fmt.Sprintf("%s,%s,%d,%s,%d", ph, w.spell(id), int(r.Transport), vlib.B(r.Valid), r.regCount))
 		}
 	}
 	for _, to := range w.rd.decoysTimeouts {
-		t = append(t, fmt.Sprintf("%s,%s,%d,%s", to.decoy, vlib.Hex([]byte(to.identifier)), w.vcreated(to), vlib.B(to.status == regStatusUsed)))
+		t = append(t, fmt.Sprintf("%s,%s,%d,%s", to.decoy, w.spell(to.identifier), w.vcreated(to), vlib.B(to.status == regStatusUsed)))
 	}
 	sort.Strings(d)
 	sort.Strings(t)
@@ -131,19 +272,34 @@ func (w *c08World) dump() string {
 		p = append(p, ph)
 	}
 	sort.Strings(p)
-	return "D:" + strings.Join(d, "/") + "|T:" + strings.Join(t, "/") + "|P:" + strings.Join(p, ",")
+	var u []string
+	for _, tn := range w.tunnels {
+		u = append(u, c08Phantoms[tn.key.ph]+","+w.identK(tn.key))
+	}
+	sort.Strings(u)
+	return "D:" + strings.Join(d, "/") + "|T:" + strings.Join(t, "/") + "|P:" + strings.Join(p, ",") + "|U:" + strings.Join(u, "/")
 }
 
 // c08Cfg is the head of the model line: the lifetimes are the ones the code under test uses (whole
 // seconds), so the model is driven by the code's own limits while the oracle keeps the property's.
 func (w *c08World) cfg() string {
-	return fmt.Sprintf("registry|%d|%d|1,4,3|", int64(w.rd.timeoutUnused/time.Second), int64(w.rd.timeoutActive/time.Second))
+	return fmt.Sprintf("registryx|%d|%d|1,4,3|", int64(w.rd.timeoutUnused/time.Second), int64(w.rd.timeoutActive/time.Second))
 }
 
 type c08Op struct {
 	kind        byte
 	ph, sec, tr int
 	now         int64
+	// 't' / 'r': which object is handed over — 0 a new one, 1 a new one whose Valid flag is already set,
+	// 2 the object that was delivered for this registration the last time (whatever it carries by now)
+	obj byte
+	// 'P': 0 the covert refuses (the tunnel is counted and finishes at once), 1 the tunnel stays open
+	// 'B': the number of registrations of the burst (their secrets are sec, sec+1, …; sec >= c08BulkBase)
+	n int
+	// 'B': 't', 'r' or 'm'
+	sub byte
+	// 'C' / 'S': what happens between the sweep's collection and its removals
+	mid []c08Op
 }
 
 const c08Unused, c08Active = 600, 21600
@@ -153,153 +309,392 @@ func c08Alive(g *c08GT, now int64) bool {
 	return age <= c08Active && (g.used || age <= c08Unused)
 }
 
+// ---- tunnels: the real lib.Proxy on the registration object
+
+// proxyOnce runs a tunnel that finishes at once (the covert refuses the connection); reports whether
+// the tunnel was counted on the registration object.
+func (w *c08World) proxyOnce(reg *DecoyRegistration) bool {
+	before := atomic.LoadInt64(&reg.tunnelCount)
+	saved := reg.Covert
+	reg.Covert = c08Covert.refused
+	c1, c2 := net.Pipe()
+	c2.Close() // the client is gone already: the call returns at once even if something answers at the covert address
+	Proxy(reg, c1, w.logger)
+	c1.Close()
+	reg.Covert = saved
+	return atomic.LoadInt64(&reg.tunnelCount) == before+1
+}
+
+// proxyOpen starts a tunnel that stays open (client side: a pipe; covert side: a TCP connection to the
+// harness's listener) and returns once it is counted and connected.
+func (w *c08World) proxyOpen(k c08Key, reg *DecoyRegistration) bool {
+	before := atomic.LoadInt64(&reg.tunnelCount)
+	acc := atomic.LoadInt64(&c08Covert.accepted)
+	c1, c2 := net.Pipe()
+	tn := &c08Tunnel{key: k, client: c2, done: make(chan struct{})}
+	go func() {
+		defer close(tn.done)
+		Proxy(reg, c1, w.logger)
+	}()
+	deadline := time.Now().Add(2 * time.Second)
+	for time.Now().Before(deadline) {
+		if atomic.LoadInt64(&reg.tunnelCount) > before && atomic.LoadInt64(&c08Covert.accepted) > acc {
+			break
+		}
+		select {
+		case <-tn.done:
+			deadline = time.Now()
+		default:
+			runtime.Gosched()
+		}
+	}
+	w.tunnels = append(w.tunnels, tn)
+	c08Covert.opened++
+	return atomic.LoadInt64(&reg.tunnelCount) == before+1
+}
+
+func (w *c08World) closeTunnel(i int) {
+	tn := w.tunnels[i]
+	w.tunnels = append(w.tunnels[:i], w.tunnels[i+1:]...)
+	tn.client.Close()
+	select {
+	case <-tn.done:
+	case <-time.After(5 * time.Second):
+	}
+}
+
+// realTunnelAllowed bounds the number of tunnels that use a TCP connection (each leaves a socket in
+// TIME_WAIT for a minute).
+func realTunnelAllowed() bool {
+	return c08Covert.opened < 1200+int(time.Since(c08Covert.start).Seconds()*12)
+}
+
 // runC08 executes one history on the implementation; returns the model line, the implementation's
-// answer (outs + final dump) and whether the history counts (false: it was slower than c08SlowLimit
-// and is discarded, together with whatever the oracles said about it).
+// answer (outs + final dump) and whether the history counts (false: it was slower than the limit, or
+// a sweep fell on a boundary instant, and is discarded together with whatever the oracles said).
 func runC08(out *vlib.Out, ops []c08Op) (string, string, bool) {
+	return runC08Q(out, ops, 1)
+}
+
+func runC08Q(out *vlib.Out, ops []c08Op, quantum int64) (string, string, bool) {
 	w := newC08World()
+	w.quantum = quantum
 	var mops, outs []string
-	type c08Fail struct{ sig, what, replay string }
+	type c08Fail struct{ sig, what string }
 	var fails []c08Fail
 	checks := 0
-	fail := func(sig, what string) {
-		fails = append(fails, c08Fail{sig, what, w.cfg() + strings.Join(mops, ";")})
+	fail := func(sig, what string) { fails = append(fails, c08Fail{sig, what}) }
+	emit := func(m, o string) {
+		mops = append(mops, m)
+		outs = append(outs, o)
+		first := strings.SplitN(o, " ", 2)[0]
+		if _, err := strconv.Atoi(first); err == nil && len(first) > 1 {
+			first = "number"
+		}
+		out.Count("out:" + first)
 	}
-	for _, op := range ops {
-		d := w.mkReg(op.ph, op.sec, op.tr)
-		id := w.ident(d)
+	annOut := func(none string) string {
+		switch {
+		case len(w.ann) == 0:
+			return none
+		case len(w.ann) == 1:
+			return w.ann[0]
+		}
+		return "ann?" + strings.Join(w.ann, "+")
+	}
+
+	// ---- property oracle after a completed sweep at `now`: the age rule, evaluated against the
+	// harness ground truth; nothing of an expired registration is left
+	sweepOracle := func(now int64) {
+		visible := map[int]map[string]*DecoyRegistration{}
+		for key, g := range w.gt {
+			if age := now - g.time; age == c08Unused || age == c08Active {
+				w.boundaryInstant = true
+			}
+			dd := w.mkReg(key.ph, key.sec, key.tr)
+			tracked := w.rd.RegistrationExists(dd) != nil
+			want := c08Alive(g, now)
+			name := func() string { return fmt.Sprintf("%d/%d/%d", key.ph, key.sec, key.tr) }
+			checks++
+			if tracked && !want {
+				fail("C08:kept-past-lifetime", fmt.Sprintf("%s tracked after sweep at %d: age %d used %v", name(), now, now-g.time, g.used))
+			}
+			if !tracked && want {
+				fail("C08:expired-early", fmt.Sprintf("%s gone after sweep at %d: age %d used %v", name(), now, now-g.time, g.used))
+			}
+			if !want {
+				// still matching a connection?
+				if visible[key.ph] == nil {
+					visible[key.ph] = w.rd.getRegistrations(dd.PhantomIp)
+				}
+				if _, ok := visible[key.ph][w.identRaw(key)]; ok {
+					fail("C08:expired-still-matches", name())
+				}
+				delete(w.gt, key)
+			}
+		}
+		// no residue: both maps hold exactly the ground-truth set
+		if w.rd.totalRegistrations() != len(w.gt) || len(w.rd.decoysTimeouts) != len(w.gt) {
+			fail("C08:residue", fmt.Sprintf("after sweep at %d: regs=%d timeouts=%d expected=%d", now, w.rd.totalRegistrations(), len(w.rd.decoysTimeouts), len(w.gt)))
+		}
+		// forgotten entirely: the nested map keeps one inner map per phantom that still has a tracked
+		// registration — an inner map left behind empty (or kept for a phantom whose registrations
+		// have all expired) is residue that grows with every phantom address ever used
+		gtPh := map[int]bool{}
+		for key := range w.gt {
+			gtPh[key.ph] = true
+		}
+		checks++
+		empty := 0
+		for _, m := range w.rd.decoys {
+			if len(m) == 0 {
+				empty++
+			}
+		}
+		if empty > 0 || len(w.rd.decoys) != len(gtPh) {
+			fail("C08:residue-phantom-bucket", fmt.Sprintf("after sweep at %d: %d per-phantom maps stored (%d of them empty), %d phantoms have a tracked registration", now, len(w.rd.decoys), empty, len(gtPh)))
+		}
+	}
+
+	// deliver hands Track / register the object the operation asks for
+	deliver := func(op c08Op, key c08Key) *DecoyRegistration {
+		var d *DecoyRegistration
+		switch {
+		case op.obj == 2 && w.objs[key] != nil:
+			d = w.objs[key]
+		case op.obj == 1:
+			d = w.mkReg(key.ph, key.sec, key.tr)
+			d.Valid = true
+		default:
+			d = w.mkReg(key.ph, key.sec, key.tr)
+		}
+		w.objs[key] = d
+		return d
+	}
+
+	track := func(op c08Op, key c08Key) string {
+		d := deliver(op, key)
+		err := w.rd.Track(d)
+		if key.tr != 3 && w.gt[key] == nil {
+			w.gt[key] = &c08GT{time: op.now}
+		}
+		if err != nil {
+			return "err"
+		}
+		return "ok"
+	}
+	register := func(op c08Op, key c08Key) string {
+		d := deliver(op, key)
+		w.ann = w.ann[:0]
+		err := w.rd.register(c08Phantoms[key.ph], d)
+		o := "err"
+		if err == nil {
+			o = annOut("dup")
+		}
+		if key.tr != 3 {
+			g := w.gt[key]
+			if g == nil {
+				g = &c08GT{time: op.now}
+				w.gt[key] = g
+			}
+			// oracle (C09 announce-once, sequential part): announced iff it was not valid before
+			checks++
+			if (len(w.ann) == 1) == g.valid {
+				fail("C08:announce-once", fmt.Sprintf("register announced=%v although valid-before=%v", len(w.ann) == 1, g.valid))
+			}
+			g.valid = true
+		}
+		return o
+	}
+	markActive := func(key c08Key) string {
+		d := w.mkReg(key.ph, key.sec, key.tr)
+		// a connection handler marks the object it got from the lookup when there is one
+		if m, ok := w.rd.decoys[c08Phantoms[key.ph]]; ok {
+			if stored, ok := m[w.identRaw(key)]; ok && key.tr != 3 {
+				d = stored
+			}
+		}
+		w.ann = w.ann[:0]
+		w.rd.markActive(d)
+		if g := w.gt[key]; g != nil {
+			g.used = true
+		}
+		return annOut("none")
+	}
+
+	var exec func(op c08Op, inSweep bool)
+	exec = func(op c08Op, inSweep bool) {
+		key := c08Key{op.ph, op.sec, op.tr}
 		phs := c08Phantoms[op.ph]
 		tr := int(c08Transports[op.tr])
-		enabled := op.tr != 3
-		g := w.gt[gtKey(op.ph, op.sec, op.tr)]
-		w.ann = w.ann[:0]
 		w.advance(op.now)
+		out.Count("op:" + string(op.kind))
 		switch op.kind {
-		case 't':
-			mops = append(mops, fmt.Sprintf("t,%s,%s,%d,%d", phs, id, tr, op.now))
-			w.advance(op.now)
-			err := w.rd.Track(d)
-			if err != nil {
-				outs = append(outs, "err")
+		case 't', 'r':
+			id := w.identK(key)
+			var spelled string
+			if op.obj == 2 && w.objs[key] != nil {
+				spelled = "r" + vlib.B(w.objs[key].Valid)
+				out.Count("object:delivered-again-valid=" + vlib.B(w.objs[key].Valid))
+			} else if op.obj == 1 {
+				spelled = "1"
+				out.Count("object:new-valid-preset")
+			}
+			var o string
+			if op.kind == 't' {
+				o = track(op, key)
 			} else {
-				outs = append(outs, "ok")
+				o = register(op, key)
 			}
-			if enabled && g == nil {
-				w.gt[gtKey(op.ph, op.sec, op.tr)] = &c08GT{time: op.now}
-			}
-		case 'r':
-			mops = append(mops, fmt.Sprintf("r,%s,%s,%d,%d", phs, id, tr, op.now))
-			w.advance(op.now)
-			err := w.rd.register(phs, d)
-			switch {
-			case err != nil:
-				outs = append(outs, "err")
-			case len(w.ann) == 1 && w.ann[0] == "new":
-				outs = append(outs, "new")
-			case len(w.ann) == 0:
-				outs = append(outs, "dup")
-			default:
-				outs = append(outs, "ann?"+strings.Join(w.ann, "+"))
-			}
-			if enabled {
-				if g == nil {
-					g = &c08GT{time: op.now}
-					w.gt[gtKey(op.ph, op.sec, op.tr)] = g
-				}
-				// oracle (C09 announce-once, sequential part): announced iff it was not valid before
-				checks++
-				if (len(w.ann) == 1) == g.valid {
-					fail("C08:announce-once", fmt.Sprintf("register announced=%v although valid-before=%v", len(w.ann) == 1, g.valid))
-				}
-				g.valid = true
+			if spelled == "" {
+				emit(fmt.Sprintf("%c,%s,%s,%d,%d", op.kind, phs, id, tr, op.now), o)
+			} else {
+				emit(fmt.Sprintf("%co,%s,%s,%d,%d,%s", op.kind, phs, id, tr, op.now, spelled), o)
 			}
 		case 'm':
-			mops = append(mops, fmt.Sprintf("m,%s,%s,%d", phs, id, tr))
-			// a connection handler marks the object it got from the lookup when there is one
+			emit(fmt.Sprintf("m,%s,%s,%d", phs, w.identK(key), tr), markActive(key))
+		case 'B':
+			// a burst: n deliveries for n distinct registrations (one model operation)
+			hist := map[string]int{}
+			for i := 0; i < op.n; i++ {
+				k := c08Key{op.ph, op.sec + i, op.tr}
+				w.identK(k) // registers the short name
+				var o string
+				switch op.sub {
+				case 't':
+					o = track(c08Op{now: op.now}, k)
+				case 'r':
+					o = register(c08Op{now: op.now}, k)
+				default:
+					o = markActive(k)
+				}
+				hist[o]++
+			}
+			var hs []string
+			for k, v := range hist {
+				hs = append(hs, fmt.Sprintf("%s=%d", k, v))
+			}
+			sort.Strings(hs)
+			emit(fmt.Sprintf("B,%c,%s,b%d_,%d,%d,%d,%d", op.sub, phs, tr, op.sec-c08BulkBase, op.n, tr, op.now),
+				strings.TrimRight("bulk "+strings.Join(hs, " "), " "))
+			out.Count(fmt.Sprintf("burst-size:<=%d", c08SizeClass(op.n)))
+		case 'P':
+			// lib.Proxy on the registration object a connection handler would hold: the stored one when
+			// there is one, else the object delivered last
+			if op.tr == 3 {
+				return
+			}
+			reg := w.objs[key]
 			if m, ok := w.rd.decoys[phs]; ok {
-				if stored, ok := m[string(mustUnhex(id))]; ok {
-					d = stored
+				if stored, ok := m[w.identRaw(key)]; ok {
+					reg = stored
 				}
 			}
-			w.rd.markActive(d)
-			if len(w.ann) == 1 && w.ann[0] == "upd" {
-				outs = append(outs, "upd")
-			} else if len(w.ann) == 0 {
-				outs = append(outs, "none")
+			if reg == nil || reg.TransportPtr == nil {
+				return
+			}
+			id := w.identK(key)
+			if op.n == 1 && realTunnelAllowed() {
+				ok := w.proxyOpen(key, reg)
+				emit(fmt.Sprintf("P,%s,%s", phs, id), map[bool]string{true: "ok", false: "tunnel-not-counted"}[ok])
+				out.Count("tunnel:open")
 			} else {
-				outs = append(outs, "ann?"+strings.Join(w.ann, "+"))
+				ok := w.proxyOnce(reg)
+				emit(fmt.Sprintf("P,%s,%s", phs, id), map[bool]string{true: "ok", false: "tunnel-not-counted"}[ok])
+				emit(fmt.Sprintf("Q,%s,%s", phs, id), "ok")
+				out.Count("tunnel:finished-at-once")
 			}
-			if g != nil {
-				g.used = true
+		case 'Q':
+			if op.tr == 3 {
+				return
 			}
+			id := w.identK(key)
+			for i, tn := range w.tunnels {
+				if tn.key == key {
+					w.closeTunnel(i)
+					emit(fmt.Sprintf("Q,%s,%s", phs, id), "ok")
+					return
+				}
+			}
+			emit(fmt.Sprintf("Q,%s,%s", phs, id), "none")
 		case 's':
-			mops = append(mops, fmt.Sprintf("s,%d", op.now))
-			w.advance(op.now)
 			n, v := w.rd.removeOldRegistrations(w.logger)
-			outs = append(outs, fmt.Sprintf("swept %d %d", n, v))
-			// ---- property oracle: the age rule, evaluated against the harness ground truth
-			for key, g := range w.gt {
-				var ph, sec, tr int
-				fmt.Sscanf(key, "%d/%d/%d", &ph, &sec, &tr)
-				dd := w.mkReg(ph, sec, tr)
-				tracked := w.rd.RegistrationExists(dd) != nil
-				want := c08Alive(g, op.now)
-				checks++
-				if tracked && !want {
-					fail("C08:kept-past-lifetime", fmt.Sprintf("%s tracked after sweep at %d: age %d used %v", key, op.now, op.now-g.time, g.used))
+			emit(fmt.Sprintf("s,%d", op.now), fmt.Sprintf("swept %d %d", n, v))
+			sweepOracle(op.now)
+		case 'C':
+			// white-box: the sweeper's two critical sections, other operations in between
+			idx := w.rd.getExpiredRegistrations()
+			var keys []string
+			for _, ix := range idx {
+				if to, ok := w.rd.decoysTimeouts[ix]; ok {
+					keys = append(keys, to.decoy+","+w.spell(to.identifier))
+				} else {
+					keys = append(keys, "?"+ix)
 				}
-				if !tracked && want {
-					fail("C08:expired-early", fmt.Sprintf("%s gone after sweep at %d: age %d used %v", key, op.now, op.now-g.time, g.used))
+			}
+			sort.Strings(keys)
+			emit(fmt.Sprintf("c,%d", op.now), strings.TrimRight("keys "+strings.Join(keys, " "), " "))
+			type cand struct{ name, ix string }
+			var cands []cand
+			for _, ix := range idx {
+				if to, ok := w.rd.decoysTimeouts[ix]; ok {
+					cands = append(cands, cand{to.decoy + "," + w.spell(to.identifier), ix})
 				}
-				if !want {
-					// still matching a connection?
-					for id2 := range w.rd.getRegistrations(dd.PhantomIp) {
-						if vlib.Hex([]byte(id2)) == w.ident(dd) {
-							fail("C08:expired-still-matches", key)
-						}
+			}
+			sort.Slice(cands, func(i, j int) bool { return cands[i].name < cands[j].name })
+			for _, m := range op.mid {
+				m.now = op.now
+				exec(m, true)
+			}
+			for _, c := range cands {
+				st := w.rd.removeRegistration(c.ix)
+				o := "none"
+				if st != nil {
+					o = vlib.B(st.Valid)
+				}
+				emit(fmt.Sprintf("x,%s,%d", c.name, op.now), o)
+			}
+			emit("T", fmt.Sprint(w.rd.TotalRegistrations()))
+			out.Count(fmt.Sprintf("split-sweep:whitebox:mid=%d", len(op.mid)))
+			sweepOracle(op.now)
+		case 'S':
+			// the real removeOldRegistrations, interrupted at its scheduling point before the first removal
+			fired := false
+			emit(fmt.Sprintf("sb,%d", op.now), "ok")
+			verifhook.SetScheduler(func(point string) {
+				if point == "sweep:before-remove" && !fired {
+					fired = true
+					for _, m := range op.mid {
+						m.now = op.now
+						exec(m, true)
 					}
-					delete(w.gt, key)
+				}
+			})
+			n, v := w.rd.removeOldRegistrations(w.logger)
+			verifhook.SetScheduler(nil)
+			emit("se", fmt.Sprintf("swept %d %d", n, v))
+			if !fired {
+				// nothing was collected: the sweep had no removal phase, the operations come after it
+				for _, m := range op.mid {
+					m.now = op.now
+					exec(m, true)
 				}
 			}
-			// no residue: both maps hold exactly the ground-truth set
-			if w.rd.totalRegistrations() != len(w.gt) || len(w.rd.decoysTimeouts) != len(w.gt) {
-				fail("C08:residue", fmt.Sprintf("after sweep at %d: regs=%d timeouts=%d expected=%d", op.now, w.rd.totalRegistrations(), len(w.rd.decoysTimeouts), len(w.gt)))
-			}
-			// forgotten entirely: the nested map keeps one inner map per phantom that still has a tracked
-			// registration — an inner map left behind empty (or kept for a phantom whose registrations
-			// have all expired) is residue that grows with every phantom address ever used
-			gtPh := map[int]bool{}
-			for key := range w.gt {
-				var ph, sec, tr int
-				fmt.Sscanf(key, "%d/%d/%d", &ph, &sec, &tr)
-				gtPh[ph] = true
-			}
-			checks++
-			empty := 0
-			for _, m := range w.rd.decoys {
-				if len(m) == 0 {
-					empty++
-				}
-			}
-			if empty > 0 || len(w.rd.decoys) != len(gtPh) {
-				fail("C08:residue-phantom-bucket", fmt.Sprintf("after sweep at %d: %d per-phantom maps stored (%d of them empty), %d phantoms have a tracked registration", op.now, len(w.rd.decoys), empty, len(gtPh)))
-			}
+			out.Count(fmt.Sprintf("split-sweep:real:mid=%d:interrupted=%v", len(op.mid), fired))
+			sweepOracle(op.now)
 		case 'l':
-			mops = append(mops, fmt.Sprintf("l,%s", phs))
 			var ids []string
 			for id2 := range w.rd.getRegistrations(net.ParseIP(phs)) {
-				ids = append(ids, vlib.Hex([]byte(id2)))
+				ids = append(ids, w.spell(id2))
 			}
 			sort.Strings(ids)
-			outs = append(outs, strings.TrimRight("regs "+strings.Join(ids, " "), " "))
+			emit(fmt.Sprintf("l,%s", phs), strings.TrimRight("regs "+strings.Join(ids, " "), " "))
 			// oracle: a lookup returns exactly the registrations of this phantom that were validated
 			// and not expired by a sweep since (ground truth)
 			want := map[string]bool{}
-			for key, g := range w.gt {
-				var ph, sec, tr int
-				fmt.Sscanf(key, "%d/%d/%d", &ph, &sec, &tr)
-				if ph == op.ph && g.valid {
-					want[w.ident(w.mkReg(ph, sec, tr))] = true
+			for k, g := range w.gt {
+				if k.ph == op.ph && g.valid {
+					want[w.identK(k)] = true
 				}
 			}
 			checks++
@@ -313,30 +708,48 @@ func runC08(out *vlib.Out, ops []c08Op) (string, string, bool) {
 				fail("C08:lookup-misses-valid", "lookup on "+phs+" did not return the validated, tracked registration "+id2)
 			}
 		case 'e':
-			mops = append(mops, fmt.Sprintf("e,%s,%s,%d", phs, id, tr))
-			outs = append(outs, vlib.B(w.rd.RegistrationExists(d) != nil))
+			d := w.mkReg(op.ph, op.sec, op.tr)
+			emit(fmt.Sprintf("e,%s,%s,%d", phs, w.identK(key), tr), vlib.B(w.rd.RegistrationExists(d) != nil))
 		case 'n':
-			mops = append(mops, fmt.Sprintf("n,%s", phs))
-			outs = append(outs, fmt.Sprint(w.rd.countRegistrations(net.ParseIP(phs))))
+			emit(fmt.Sprintf("n,%s", phs), fmt.Sprint(w.rd.countRegistrations(net.ParseIP(phs))))
 		case 'T':
-			mops = append(mops, "T")
-			outs = append(outs, fmt.Sprint(w.rd.TotalRegistrations()))
+			if inSweep {
+				return // `T` closes a white-box sweep in the model line
+			}
+			emit("T", fmt.Sprint(w.rd.TotalRegistrations()))
 		}
-		out.Count("op:" + string(op.kind))
-		out.Count("out:" + strings.SplitN(outs[len(outs)-1], " ", 2)[0])
+	}
+	for _, op := range ops {
+		exec(op, false)
 	}
 	model, impl := w.cfg()+strings.Join(mops, ";"), strings.Join(outs, ";")+"|"+w.dump()
-	if time.Since(w.t0) >= c08SlowLimit {
+	for len(w.tunnels) > 0 {
+		w.closeTunnel(0)
+	}
+	if time.Since(w.t0) >= c08SlowLimit*time.Duration(w.quantum) {
 		out.Count("discarded:slow-history")
+		return model, impl, false
+	}
+	if w.boundaryInstant {
+		out.Count("discarded:sweep-on-a-boundary-instant")
 		return model, impl, false
 	}
 	for i := 0; i < checks; i++ {
 		out.Checked()
 	}
 	for _, f := range fails {
-		out.OracleFail(f.sig, f.what, f.replay)
+		out.OracleFail(f.sig, f.what, model)
 	}
 	return model, impl, true
+}
+
+func c08SizeClass(n int) int {
+	for _, c := range []int{1, 10, 100, 999, 1000, 1024, 2000, 5000, 10000, 100000} {
+		if n <= c {
+			return c
+		}
+	}
+	return 1 << 30
 }
 
 // c08Case runs one history and records it as a correspondence case unless it was discarded.
@@ -355,10 +768,70 @@ func mustUnhex(s string) []byte {
 	return b
 }
 
+// c08SafeSweep moves a sweep time off every instant at which something that was (possibly) tracked at
+// one of the times in `starts` would be exactly as old as a lifetime (the property leaves that instant
+// open).
+func c08SafeSweep(at int64, starts []int64) int64 {
+	for again := true; again; {
+		again = false
+		for _, s := range starts {
+			if at-s == c08Unused || at-s == c08Active {
+				at++
+				again = true
+			}
+		}
+	}
+	return at
+}
+
 func c08RandomHistory(r *vlib.Rand, n, nph, nsec int) []c08Op {
 	ops := make([]c08Op, 0, n)
 	now := int64(0)
 	var starts []int64 // times at which something was tracked / registered: candidate creation times
+	type pk struct{ ph, sec, tr int }
+	var open []pk
+	randKey := func() (int, int, int) {
+		tr := r.Intn(3)
+		if r.Chance(1, 25) {
+			tr = 3 // disabled transport
+		}
+		return r.Intn(nph), r.Intn(nsec), tr
+	}
+	obj := func() byte {
+		switch k := r.Intn(10); {
+		case k < 6:
+			return 0
+		case k < 7:
+			return 1
+		}
+		return 2
+	}
+	// what may happen between a sweep's collection and its removals
+	midOps := func(at int64) []c08Op {
+		var mid []c08Op
+		for j, k := 0, r.Range(0, 3); j < k; j++ {
+			m := c08Op{now: at}
+			m.ph, m.sec, m.tr = randKey()
+			switch q := r.Intn(10); {
+			case q < 5:
+				m.kind = 'm'
+			case q < 6:
+				m.kind, m.obj = 't', obj()
+				starts = append(starts, at)
+			case q < 7:
+				m.kind, m.obj = 'r', obj()
+				starts = append(starts, at)
+			case q < 8:
+				m.kind = 'l'
+			case q < 9:
+				m.kind = 'P'
+			default:
+				m.kind = 'e'
+			}
+			mid = append(mid, m)
+		}
+		return mid
+	}
 	for i := 0; i < n; i++ {
 		// time advances in whole minutes; ordinary sweeps happen on the half minute, boundary sweeps one
 		// second before / after a record reaches a lifetime: no record is ever exactly at a limit (the
@@ -371,16 +844,14 @@ func c08RandomHistory(r *vlib.Rand, n, nph, nsec int) []c08Op {
 		case 2, 3:
 			now += 60
 		}
-		op := c08Op{ph: r.Intn(nph), sec: r.Intn(nsec), tr: r.Intn(3), now: now}
-		if r.Chance(1, 25) {
-			op.tr = 3 // disabled transport
-		}
-		switch k := r.Intn(20); {
+		op := c08Op{now: now}
+		op.ph, op.sec, op.tr = randKey()
+		switch k := r.Intn(24); {
 		case k < 4:
-			op.kind = 't'
+			op.kind, op.obj = 't', obj()
 			starts = append(starts, now)
 		case k < 9:
-			op.kind = 'r'
+			op.kind, op.obj = 'r', obj()
 			starts = append(starts, now)
 		case k < 12:
 			op.kind = 'm'
@@ -394,6 +865,13 @@ func c08RandomHistory(r *vlib.Rand, n, nph, nsec int) []c08Op {
 					op.now = at
 				}
 			}
+			op.now = c08SafeSweep(op.now, starts)
+			switch r.Intn(4) {
+			case 0:
+				op.kind, op.mid = 'C', midOps(op.now)
+			case 1:
+				op.kind, op.mid = 'S', midOps(op.now)
+			}
 			// the clock never runs backwards; later operations are on whole minutes again
 			now = (op.now/60 + 1) * 60
 		case k < 17:
@@ -402,8 +880,26 @@ func c08RandomHistory(r *vlib.Rand, n, nph, nsec int) []c08Op {
 			op.kind = 'e'
 		case k < 19:
 			op.kind = 'n'
-		default:
+		case k < 20:
 			op.kind = 'T'
+		case k < 23:
+			// a connection carries a tunnel: usually on the registration that was marked last
+			op.kind = 'P'
+			if len(ops) > 0 && ops[len(ops)-1].kind == 'm' && r.Chance(3, 4) {
+				l := ops[len(ops)-1]
+				op.ph, op.sec, op.tr = l.ph, l.sec, l.tr
+			}
+			if r.Chance(1, 4) {
+				op.n = 1
+				open = append(open, pk{op.ph, op.sec, op.tr})
+			}
+		default:
+			op.kind = 'Q'
+			if len(open) > 0 && r.Chance(3, 4) {
+				j := r.Intn(len(open))
+				op.ph, op.sec, op.tr = open[j].ph, open[j].sec, open[j].tr
+				open = append(open[:j], open[j+1:]...)
+			}
 		}
 		ops = append(ops, op)
 	}
@@ -420,7 +916,7 @@ func c08Exhaustive(out *vlib.Out, alpha []c08Op, L int) {
 			now := int64(0)
 			for i, o := range prefix {
 				h[i] = o
-				if o.kind == 's' {
+				if o.kind == 's' || o.kind == 'C' || o.kind == 'S' {
 					now += o.now
 				} else {
 					now += 60
@@ -440,37 +936,154 @@ func c08Exhaustive(out *vlib.Out, alpha []c08Op, L int) {
 }
 
 // c08Boundaries: every lifetime boundary from both sides, one second away, for each way a record can
-// come into being and be touched before the sweep: created by track or register, a duplicate in
-// between (must not refresh the clock), a connection (must extend the lifetime to 6 h, must not
-// restart the clock), a sibling registration of the same secret under another transport.
+// come into being and be touched before the sweep: created by track or register (the object new or
+// carrying a Valid flag already), a duplicate in between (must not refresh the clock), a connection
+// before the sweep or between the sweep's collection and its removals (must extend the lifetime to 6 h,
+// must not restart the clock), a sibling registration of the same secret under another transport; the
+// sweep as one call, as its two critical sections, and interrupted at its scheduling point.
 func c08Boundaries(out *vlib.Out) {
 	for tr := 0; tr < 3; tr++ {
 		for _, create := range []byte{'t', 'r'} {
-			for dup := 0; dup < 3; dup++ { // 0 none, 1 duplicate track, 2 duplicate register
-				for _, used := range []bool{false, true} {
-					for _, sibling := range []bool{false, true} {
-						for _, lim := range []int64{c08Unused, c08Active} {
-							for _, d := range []int64{-1, 1} {
-								h := []c08Op{{kind: create, tr: tr, now: 0}}
-								if sibling {
-									h = append(h, c08Op{kind: 'r', tr: (tr + 1) % 3, now: 0})
+			for _, obj := range []byte{0, 1} {
+				for dup := 0; dup < 3; dup++ { // 0 none, 1 duplicate track, 2 duplicate register
+					for used := 0; used < 3; used++ { // 0 no connection, 1 before the sweep, 2 during the sweep
+						for _, sibling := range []bool{false, true} {
+							for _, lim := range []int64{c08Unused, c08Active} {
+								for _, d := range []int64{-1, 1} {
+									for _, sk := range []byte{'s', 'C', 'S'} {
+										if used == 2 && sk == 's' {
+											continue
+										}
+										h := []c08Op{{kind: create, tr: tr, now: 0, obj: obj}}
+										if sibling {
+											h = append(h, c08Op{kind: 'r', tr: (tr + 1) % 3, now: 0})
+										}
+										if dup > 0 {
+											h = append(h, c08Op{kind: []byte{'t', 'r'}[dup-1], tr: tr, now: 60})
+										}
+										if used == 1 {
+											h = append(h, c08Op{kind: 'm', tr: tr, now: 120}, c08Op{kind: 'P', tr: tr, now: 120})
+										}
+										sw := c08Op{kind: sk, now: lim + d}
+										if used == 2 {
+											sw.mid = []c08Op{{kind: 'm', tr: tr}, {kind: 'P', tr: tr}}
+										}
+										h = append(h, sw, c08Op{kind: 'l', now: lim + d}, c08Op{kind: 'n', now: lim + d},
+											c08Op{kind: sk, now: c08Active + d}, c08Op{kind: 'l', now: c08Active + d}, c08Op{kind: 'n', now: c08Active + d})
+										c08Case(out, h)
+										out.Count("boundary")
+									}
 								}
-								if dup > 0 {
-									h = append(h, c08Op{kind: []byte{'t', 'r'}[dup-1], tr: tr, now: 60})
-								}
-								if used {
-									h = append(h, c08Op{kind: 'm', tr: tr, now: 120})
-								}
-								h = append(h, c08Op{kind: 's', now: lim + d}, c08Op{kind: 'l'}, c08Op{kind: 'T'},
-									c08Op{kind: 's', now: c08Active + d}, c08Op{kind: 'l'}, c08Op{kind: 'T'})
-								c08Case(out, h)
-								out.Count("boundary")
 							}
 						}
 					}
 				}
 			}
 		}
+	}
+}
+
+// c08Populations: the age rule on big populations — bursts of registrations that expire together, and
+// a steady registration rate over many sweep intervals. Times are whole minutes (registrations on even
+// minutes, sweeps on odd ones, so no record is ever exactly at a lifetime) and the history may take up
+// to 54 s of real time (quantum 60 s).
+func c08Populations(out *vlib.Out, r *vlib.Rand) {
+	sizes := []int{1, 2, 10, 100, 999, 1000, 1001, 1023, 1024, 1025, 2000, 2500, 4096, 5000, 8192, 10000}
+	for i := 0; i < vlib.Budget(6, 30); i++ {
+		sizes = append(sizes, r.Range(1, 6000))
+	}
+	if vlib.Tier() == "thorough" {
+		sizes = append(sizes, 16384, 20000, 50000, 100000)
+	}
+	// The model's per-phantom bucket bookkeeping makes the Lean driver quadratic in the population, so
+	// histories over more than c08CorrMax registrations are evaluated by the property oracle only (the
+	// age rule on the implementation); up to that size they are correspondence cases as well.
+	const c08CorrMax = 2600
+	run := func(h []c08Op) {
+		big := false
+		for _, o := range h {
+			if o.kind == 'B' && o.n > c08CorrMax {
+				big = true
+			}
+		}
+		m, i, ok := runC08Q(out, h, 60)
+		switch {
+		case !ok:
+			out.Count("population-history:discarded")
+		case big:
+			out.Count("population-history:oracle-only")
+		default:
+			out.Case(m, i, true)
+			out.Count("population-history:oracle+correspondence")
+		}
+	}
+	for si, n := range sizes {
+		ph, tr := si%3, (si/3)%3
+		base := c08BulkBase
+		// burst: n validated registrations (and n/3+1 that are only tracked) at t=0; a few of them carry a
+		// connection; everything unused must be gone after the sweep at 11 min, everything after 6 h
+		nUsed := r.Range(0, 5)
+		if si%4 == 3 {
+			nUsed = n // every one of them carried a connection: they all expire together after 6 h
+		}
+		h := []c08Op{
+			{kind: 'B', sub: 'r', ph: ph, tr: tr, sec: base, n: n, now: 0},
+			{kind: 'B', sub: 't', ph: (ph + 1) % 3, tr: tr, sec: base + n, n: n/3 + 1, now: 0},
+			{kind: 'B', sub: 'r', ph: ph, tr: tr, sec: base + n/2, n: n/4 + 1, now: 120}, // duplicates: must not renew anything
+			{kind: 'T', now: 120}, {kind: 'n', ph: ph, now: 120},
+		}
+		if nUsed == n {
+			h = append(h, c08Op{kind: 'B', sub: 'm', ph: ph, tr: tr, sec: base, n: n, now: 240})
+		} else {
+			for j := 0; j < nUsed; j++ {
+				m := r.Intn(n)
+				h = append(h, c08Op{kind: 'm', ph: ph, tr: tr, sec: base + m, now: 240})
+				if j%2 == 0 {
+					h = append(h, c08Op{kind: 'P', ph: ph, tr: tr, sec: base + m, now: 240, n: j % 4 / 2})
+				}
+			}
+		}
+		sk := []byte{'s', 'C', 'S'}[si%3]
+		first := c08Op{kind: sk, now: 660}
+		if sk != 's' {
+			// a member is matched by a connection after the sweep collected it
+			first.mid = []c08Op{{kind: 'm', ph: ph, tr: tr, sec: base + n - 1}}
+		}
+		h = append(h, c08Op{kind: 's', now: 540}, c08Op{kind: 'T', now: 540}, // 9 min: nothing has expired
+			first, c08Op{kind: 'T', now: 660}, c08Op{kind: 'n', ph: ph, now: 660})
+		if nUsed != n {
+			h = append(h, c08Op{kind: 'l', ph: ph, now: 660})
+		}
+		if si%2 == 0 {
+			// a second generation of the same registrations (new lifetime) while the used ones live on
+			h = append(h, c08Op{kind: 'B', sub: 'r', ph: ph, tr: tr, sec: base, n: n, now: 720},
+				c08Op{kind: 's', now: 1380}, c08Op{kind: 'T', now: 1380})
+		}
+		h = append(h, c08Op{kind: 's', now: 21540}, c08Op{kind: 'T', now: 21540},
+			c08Op{kind: sk, now: 21660}, c08Op{kind: 'T', now: 21660},
+			c08Op{kind: 's', now: 21660 + 21600 + 120}, c08Op{kind: 'T', now: 21660 + 21600 + 120})
+		run(h)
+	}
+	// steady rate: `rate` new registrations every 6 minutes, a sweep one minute after each batch, over
+	// many intervals; after every sweep exactly the batches younger than 10 minutes (and the handful of
+	// used registrations younger than 6 h) are tracked — tracked state is bounded by the rate
+	rates := []int{7, 300, 1200}
+	if vlib.Tier() == "thorough" {
+		rates = append(rates, 2500, 6000)
+	}
+	for ri, rate := range rates {
+		var h []c08Op
+		next := c08BulkBase
+		for b := 0; b < 12; b++ {
+			at := int64(b) * 360
+			h = append(h, c08Op{kind: 'B', sub: []byte{'r', 't'}[b%2], ph: b % 3, tr: ri % 3, sec: next, n: rate, now: at})
+			if b%3 == 0 {
+				h = append(h, c08Op{kind: 'm', ph: b % 3, tr: ri % 3, sec: next + r.Intn(rate), now: at})
+			}
+			next += rate
+			h = append(h, c08Op{kind: []byte{'s', 'S', 'C'}[b%3], now: at + 60}, c08Op{kind: 'T', now: at + 60})
+		}
+		run(h)
 	}
 }
 
@@ -501,6 +1114,20 @@ func TestVerifC08(t *testing.T) {
 		// every registration of a phantom expires while another phantom keeps one: the emptied inner map must go
 		{{kind: 'r', ph: 0, sec: 0, tr: 0, now: 0}, {kind: 't', ph: 0, sec: 1, tr: 1, now: 0}, {kind: 'r', ph: 1, sec: 0, tr: 0, now: 0}, {kind: 'm', ph: 1, sec: 0, tr: 0},
 			{kind: 's', now: 630}, {kind: 'n', ph: 0}, {kind: 'T'}, {kind: 'r', ph: 0, sec: 0, tr: 0, now: 720}, {kind: 's', now: 21630}, {kind: 'T'}},
+		// a registration object that lived before is delivered again after the sweep forgot it: tracked,
+		// not visible until it is validated again, announced again exactly once; it then carries a
+		// connection with a tunnel and still expires after 6 h, the tunnel open or not
+		{{kind: 'r', now: 0}, {kind: 'l'}, {kind: 's', now: 630}, {kind: 't', now: 720, obj: 2}, {kind: 'l', now: 720}, {kind: 'r', now: 780, obj: 2}, {kind: 'l', now: 780},
+			{kind: 'm', now: 840}, {kind: 'P', now: 840}, {kind: 'P', now: 840, n: 1}, {kind: 's', now: 720 + 21570}, {kind: 'l', now: 720 + 21570},
+			{kind: 's', now: 720 + 21630}, {kind: 'l', now: 720 + 21630}, {kind: 'T', now: 720 + 21630}, {kind: 'Q', now: 720 + 21690}},
+		// an object constructed with the Valid flag set is tracked: not visible
+		{{kind: 't', now: 0, obj: 1}, {kind: 'l'}, {kind: 'r', now: 60, obj: 1, sec: 1}, {kind: 'l', now: 60}, {kind: 'r', now: 120}, {kind: 'l', now: 120}},
+		// a duplicate delivery must not renew the lifetime: expiry counts from the first delivery
+		{{kind: 'r', now: 0}, {kind: 'r', now: 300}, {kind: 't', now: 540, obj: 1}, {kind: 's', now: 630}, {kind: 'l', now: 630}, {kind: 'T', now: 630}},
+		// a connection between the sweep's collection and its removals keeps the registration (6 h from the registration)
+		{{kind: 'r', now: 0}, {kind: 'r', sec: 1, now: 0}, {kind: 'C', now: 660, mid: []c08Op{{kind: 'm'}, {kind: 'P'}}}, {kind: 'l', now: 660},
+			{kind: 'S', now: 21570, mid: []c08Op{{kind: 'm', sec: 1}}}, {kind: 'l', now: 21570}, {kind: 'S', now: 21630, mid: []c08Op{{kind: 'm'}}}, {kind: 'T', now: 21630}},
+		{{kind: 'r', now: 0}, {kind: 'r', sec: 1, now: 0}, {kind: 'S', now: 660, mid: []c08Op{{kind: 'm'}, {kind: 't', sec: 2}, {kind: 'r', sec: 1}}}, {kind: 'l', now: 660}, {kind: 'T', now: 660}},
 	}
 	for _, h := range corpus {
 		c08Case(out, h)
@@ -513,85 +1140,186 @@ func TestVerifC08(t *testing.T) {
 		{kind: 'r', tr: 0}, {kind: 'r', tr: 1}, {kind: 't', tr: 0}, {kind: 'm', tr: 0}, {kind: 'm', tr: 1},
 		{kind: 's', now: 630}, {kind: 's', now: 21630}, {kind: 'l'}, {kind: 's', now: 30}, {kind: 't', tr: 1},
 	}
+	// second alphabet: the registration object is delivered again / arrives with Valid set, the
+	// connection carries a tunnel, the sweep is interrupted by a connection
+	alphaX := []c08Op{
+		{kind: 'r', obj: 2}, {kind: 't', obj: 2}, {kind: 't', obj: 1}, {kind: 'm'}, {kind: 'P'},
+		{kind: 's', now: 630}, {kind: 's', now: 21630}, {kind: 'l'},
+		{kind: 'C', now: 630, mid: []c08Op{{kind: 'm'}}}, {kind: 'S', now: 21630, mid: []c08Op{{kind: 'm'}}},
+		{kind: 'S', now: 630, mid: []c08Op{{kind: 'r', obj: 2}}},
+	}
 	if vlib.Tier() == "thorough" {
 		c08Exhaustive(out, alpha10, 6) // 1.1 million histories
+		c08Exhaustive(out, alphaX, 5)  // 177 thousand
 	} else {
 		c08Exhaustive(out, alpha10, 4)
+		c08Exhaustive(out, alphaX, 4)
 	}
-	// random long histories over larger alphabets
 	r := vlib.NewRand("C08")
+	// big populations
+	c08Populations(out, r)
+	// random long histories over larger alphabets
 	n := vlib.Budget(600, 20000)
 	for i := 0; i < n; i++ {
 		c08Case(out, c08RandomHistory(r, r.Range(5, 400), r.Range(1, 3), r.Range(1, 4)))
 	}
 }
 
-// c08Replay re-runs a replay file (a `registry|…` model line) against the implementation.
+// c08ParseLine turns a model line (`registry|…` or `registryx|…`) back into a history.
+func c08ParseLine(t *testing.T, line string) ([]c08Op, int64) {
+	f := strings.Split(line, "|")
+	idents := map[string][3]int{}
+	w := newC08World()
+	for ph := range c08Phantoms {
+		for sec := 0; sec < 16; sec++ {
+			for tr := 0; tr < 3; tr++ {
+				idents[c08Phantoms[ph]+","+w.identK(c08Key{ph, sec, tr})] = [3]int{ph, sec, tr}
+			}
+		}
+	}
+	phIdx := map[string]int{}
+	for i, p := range c08Phantoms {
+		phIdx[p] = i
+	}
+	trIdx := map[int]int{}
+	for i, x := range c08Transports {
+		trIdx[int(x)] = i
+	}
+	phOf := func(ph string) int {
+		pi, ok := phIdx[ph]
+		if !ok {
+			t.Fatalf("replay: unknown phantom %q in %q", ph, line)
+		}
+		return pi
+	}
+	// an identifier or phantom the replay does not know must not silently become (0,0,0)
+	lookup := func(ph, id, tr string) [3]int {
+		if tr == "2" { // the disabled transport: its identifier is a placeholder
+			return [3]int{phOf(ph), 0, 3}
+		}
+		if strings.HasPrefix(id, "b") && strings.Contains(id, "_") { // a burst member: b<transport>_<index>
+			var trn, i int
+			if _, err := fmt.Sscanf(id, "b%d_%d", &trn, &i); err == nil {
+				return [3]int{phOf(ph), c08BulkBase + i, trIdx[trn]}
+			}
+		}
+		k, ok := idents[ph+","+id]
+		if !ok {
+			t.Fatalf("replay: identifier %s on %s is none of the harness's registrations (line %q)", id, ph, line)
+		}
+		return k
+	}
+	objOf := func(s string) byte {
+		switch s {
+		case "1":
+			return 1
+		case "r0", "r1":
+			return 2
+		}
+		return 0
+	}
+	quantum := int64(1)
+	var ops []c08Op
+	toks := strings.Split(f[4], ";")
+	var parse func(i int, stop func(string) bool) ([]c08Op, int)
+	parse = func(i int, stop func(string) bool) ([]c08Op, int) {
+		var res []c08Op
+		for i < len(toks) {
+			p := strings.Split(toks[i], ",")
+			if stop != nil && stop(p[0]) {
+				return res, i
+			}
+			op := c08Op{kind: p[0][0]}
+			switch p[0] {
+			case "t", "r", "to", "ro":
+				k := lookup(p[1], p[2], p[3])
+				op.ph, op.sec, op.tr = k[0], k[1], k[2]
+				op.now, _ = strconv.ParseInt(p[4], 10, 64)
+				if len(p) > 5 {
+					op.obj = objOf(p[5])
+				}
+			case "m", "e":
+				k := lookup(p[1], p[2], p[3])
+				op.ph, op.sec, op.tr = k[0], k[1], k[2]
+			case "P":
+				k := lookup(p[1], p[2], "")
+				op.ph, op.sec, op.tr = k[0], k[1], k[2]
+				// a tunnel that finishes at once is spelled `P;Q`
+				if i+1 < len(toks) && toks[i+1] == "Q,"+p[1]+","+p[2] {
+					i++
+				} else {
+					op.n = 1
+				}
+			case "Q":
+				k := lookup(p[1], p[2], "")
+				op.ph, op.sec, op.tr = k[0], k[1], k[2]
+			case "B":
+				op.sub = p[1][0]
+				op.ph = phOf(p[2])
+				start, _ := strconv.Atoi(p[4])
+				op.sec = c08BulkBase + start
+				op.n, _ = strconv.Atoi(p[5])
+				trn, _ := strconv.Atoi(p[6])
+				op.tr = trIdx[trn]
+				op.now, _ = strconv.ParseInt(p[7], 10, 64)
+				quantum = 60
+			case "s":
+				op.now, _ = strconv.ParseInt(p[1], 10, 64)
+			case "l", "n":
+				op.ph = phOf(p[1])
+			case "T":
+			case "sb":
+				op.kind = 'S'
+				op.now, _ = strconv.ParseInt(p[1], 10, 64)
+				// either `sb; mid…; se` (interrupted) or `sb; se; mid…` (nothing was collected: the
+				// operations follow the sweep, which is what replaying them as plain operations does)
+				var j int
+				op.mid, j = parse(i+1, func(s string) bool { return s == "se" })
+				i = j
+			case "c":
+				op.kind = 'C'
+				op.now, _ = strconv.ParseInt(p[1], 10, 64)
+				var j int
+				op.mid, j = parse(i+1, func(s string) bool { return s == "x" || s == "T" })
+				for j < len(toks) && strings.HasPrefix(toks[j], "x,") {
+					j++
+				}
+				i = j // the closing T
+			default:
+				t.Fatalf("replay: unknown operation %q in %q", toks[i], line)
+			}
+			res = append(res, op)
+			i++
+		}
+		return res, i
+	}
+	ops, _ = parse(0, nil)
+	// operations inside a sweep and the ones that carry no time of their own happen at the current time
+	now := int64(0)
+	for i := range ops {
+		if ops[i].now < now {
+			ops[i].now = now
+		}
+		now = ops[i].now
+	}
+	return ops, quantum
+}
+
+// c08Replay re-runs a replay file (model lines) against the implementation.
 func c08Replay(t *testing.T, out *vlib.Out, path string) {
 	b, err := os.ReadFile(path)
 	if err != nil {
 		t.Fatal(err)
 	}
 	for _, line := range strings.Split(string(b), "\n") {
-		if !strings.HasPrefix(line, "registry|") {
+		if !strings.HasPrefix(line, "registry|") && !strings.HasPrefix(line, "registryx|") {
 			continue
 		}
-		f := strings.Split(line, "|")
-		var ops []c08Op
-		idents := map[string][3]int{}
-		w := newC08World()
-		for ph := range c08Phantoms {
-			for sec := 0; sec < 16; sec++ {
-				for tr := 0; tr < 3; tr++ {
-					idents[c08Phantoms[ph]+","+w.ident(w.mkReg(ph, sec, tr))] = [3]int{ph, sec, tr}
-				}
-			}
-		}
-		phIdx := map[string]int{}
-		for i, p := range c08Phantoms {
-			phIdx[p] = i
-		}
-		// an identifier or phantom the replay does not know must not silently become (0,0,0)
-		lookup := func(ph, id, tr string) [3]int {
-			if tr == "2" { // the disabled transport: its identifier is a placeholder
-				pi, ok := phIdx[ph]
-				if !ok {
-					t.Fatalf("replay: unknown phantom %q in %q", ph, line)
-				}
-				return [3]int{pi, 0, 3}
-			}
-			k, ok := idents[ph+","+id]
-			if !ok {
-				t.Fatalf("replay: identifier %s on %s is none of the harness's registrations (line %q)", id, ph, line)
-			}
-			return k
-		}
-		for _, s := range strings.Split(f[4], ";") {
-			p := strings.Split(s, ",")
-			op := c08Op{kind: p[0][0]}
-			switch op.kind {
-			case 't', 'r':
-				k := lookup(p[1], p[2], p[3])
-				op.ph, op.sec, op.tr = k[0], k[1], k[2]
-				fmt.Sscan(p[4], &op.now)
-			case 'm', 'e':
-				k := lookup(p[1], p[2], p[3])
-				op.ph, op.sec, op.tr = k[0], k[1], k[2]
-			case 's':
-				fmt.Sscan(p[1], &op.now)
-			case 'l', 'n':
-				pi, ok := phIdx[p[1]]
-				if !ok {
-					t.Fatalf("replay: unknown phantom %q in %q", p[1], line)
-				}
-				op.ph = pi
-			}
-			ops = append(ops, op)
-		}
+		ops, quantum := c08ParseLine(t, line)
 		for try := 0; try < 5; try++ {
-			m, i, ok := runC08(out, ops)
+			m, i, ok := runC08Q(out, ops, quantum)
 			if !ok {
-				continue // slower than c08SlowLimit: run it again
+				continue // slower than the limit: run it again
 			}
 			out.Case(m, i, true)
 			fmt.Println("REPLAY model-line:", m)
